@@ -96,11 +96,31 @@ def strip_comments(src):
     return '\n'.join(l.split('--')[0] for l in src.split('\n'))
 
 
-def lean_hygiene():
-    """grep the whole Lean tree for forbidden constructs (comments stripped)."""
+def import_closure(modules):
+    """files of the PygyroVerif library reachable through `import` from the given modules"""
+    seen, todo = set(), list(modules)
+    while todo:
+        m = todo.pop()
+        if m in seen or not m.startswith('PygyroVerif'):
+            continue
+        f = LEAN / (m.replace('.', '/') + '.lean')
+        if not f.exists():
+            continue
+        seen.add(m)
+        for l in f.read_text().split('\n'):
+            mm = re.match(r'\s*import\s+(PygyroVerif[\w.]*)', l)
+            if mm:
+                todo.append(mm.group(1))
+    return {LEAN / (m.replace('.', '/') + '.lean') for m in seen}
+
+
+def lean_hygiene(only=None):
+    """grep the Lean tree (or only the given files) for forbidden constructs (comments stripped)."""
     bad = []
     for f in sorted(LEAN.rglob('*.lean')):
         if '.lake' in f.parts:
+            continue
+        if only is not None and f not in only:
             continue
         for i, l in enumerate(strip_comments(f.read_text()).split('\n'), 1):
             if FORBIDDEN.search(l):
@@ -290,9 +310,17 @@ class Check:
             self.notes['lake_build_s'] = round(dt, 2)
             if not ok:
                 self.proof_broken.append({'theorem': 'lake build', 'log': log})
-        bad = lean_hygiene()
+        # forbidden constructs: decisive for this property when they occur in a file its theorems depend on (import closure of its
+        # Props modules and its driver); occurrences elsewhere in the tree are recorded in the evidence but belong to other properties
+        mods = ['PygyroVerif.Props.' + self.pid] + ['PygyroVerif.Props.' + e for e in extra_props]
+        closure = import_closure(mods)
+        bad = lean_hygiene(only=closure)
         if bad:
             self.proof_broken.append({'theorem': 'hygiene', 'log': bad[:20]})
+        elsewhere = [b for b in lean_hygiene() if b not in bad]
+        if elsewhere:
+            self.notes['forbidden_constructs_outside_this_property'] = elsewhere[:10]
+        self.notes['lean_files_in_closure'] = len(closure)
         names = props_theorems(self.pid, extra_props)
         self.obligations = len(names)
         if not self.proof_broken:
